@@ -1,4 +1,4 @@
-//@serves C01 C02 C05 C10 C11 C15
+//@serves C01 C02 C05 C10 C15
 //@tier A
 //@include prelude/head.rs
 verus! {
@@ -8,15 +8,32 @@ verus! {
 //@include prelude/path.rs
 //@include prelude/error.rs
 //@include prelude/pathspec.rs
+//@include prelude/c15.rs
 //@include prelude/resolver_env.rs
 //@broadcast-here
 pub type RawMode = u32;
 pub mod syscalls {
     use super::*;
 //@include prelude/syserr_opaque.rs
+//@use syscalls.openat u06
+//@use syscalls.readlinkat u06
 }
 use syscalls::Error as SyscallError;
 //@item src/error.rs :: enum ErrorKind | sub.ErrorKind
+//@item src/resolvers.rs :: const MAX_SYMLINK_TRAVERSALS
+//@item src/resolvers.rs :: enum PartialLookup | sub.PartialLookup
+impl RawComponents<'_> {
+//@use utils.path.RawComponents.prepend
+}
 //@prove opath.check_current
+//@use opath.may_follow_link
+//@item src/handle.rs :: struct Handle | sub.Handle
+//@include prelude/handle.rs
+impl PartialLookup<Rc<OwnedFd>> {
+//@use resolvers.PartialLookup.try_into_handle_rc
+}
+//@prove opath.do_resolve
+//@prove opath.resolve_partial
+//@prove opath.resolve
 } // verus!
 fn main() {}
